@@ -170,6 +170,8 @@ def c19_space(tier):
                 if v > top:
                     continue
                 vs = underscore_variants(digits(v, base))
+                if base != 10:
+                    vs.add("_" + digits(v, base))  # 0x_ff: the separator directly after the base prefix (a valid Rust literal)
                 if tier != "thorough" and w > 300:
                     vs = sorted(vs)[:4]
                 for ds in vs:
@@ -191,6 +193,12 @@ def c19_space(tier):
             neg.append((f"{lit}U{w}", "digit not valid in base 10"))
         for lit in ["0o8", "0o18_", "0o9", "0b2", "0b12", "0b1a", "0x1g", "0xg_", "0o7a", "0b102", "0o78", "0o0b1", "0x0o7", "0b0x1", "0x0x1", "0b0b1", "0o0o7", "0b0o1", "0o0x7"]:
             neg.append((f"{lit}_U{w}", "digit not valid in its base"))
+        # a separator (or a leading zero) between the `0` and the base letter, upper-case base letters: Rust lexes these
+        # as the DECIMAL literal 0 / 00 with a suffix that starts with a letter, so they are not base-prefixed literals and
+        # the letter is not a decimal digit
+        for lit in ["0_x1F", "0_b1", "0_o17", "0__x_ff", "0_b101", "0_xff", "00x1F", "00b1", "00o7", "0_0x1", "0X1F", "0B1", "0O17", "0_X1F"]:
+            for t in "UB":
+                neg.append((f"{lit}_{t}{w}", "separator or zero between 0 and the base letter / upper-case base letter: not a prefixed literal"))
     pos = sorted(set(pos))
     neg = sorted(set(neg))
     return pos, neg
